@@ -258,4 +258,120 @@ theorem computeLaplacian_scale {N : Nat} {c : K} (hc : c ≠ 0) (heat : K → K)
   simp only [this]
 
 end le
+section leperm
+set_option linter.unusedSectionVars false
+open TapkeeVerif.LeCompose TapkeeVerif.Laplacian TapkeeVerif.SpectralLocal Matrix
+variable {K : Type} [Field K] {N : Nat}
+
+theorem nbOf_injective {g : Graph} {k : Nat} (hu : Uniform g N k) (hnd : ∀ l ∈ g, l.Nodup) (i : Fin N) :
+    Function.Injective (nbOf hu i) := by
+  intro a b hab
+  have hi : i.1 < g.length := by rw [hu.1]; exact i.2
+  have h := congrArg Fin.val hab
+  simp only [nbOf] at h
+  exact Fin.ext ((List.Nodup.getElem_inj_iff (hnd _ (List.getElem_mem hi))).1 h)
+
+/-- on duplicate-free lists the directed heat adjacency is the indicator of the edge relation times the heat value -/
+theorem adj_of_nodup {g : Graph} {k : Nat} (hu : Uniform g N k) (hnd : ∀ l ∈ g, l.Nodup) (H : Fin N → Fin N → K)
+    (i j : Fin N) [Decidable (Edge g i.1 j.1)] :
+    adj (nbOf hu) (fun i a => H i (nbOf hu i a)) i j = if Edge g i.1 j.1 then H i j else 0 := by
+  unfold adj
+  by_cases he : Edge g i.1 j.1
+  · rw [if_pos he]
+    obtain ⟨i', a, hi', hw⟩ := edge_nbOf hu he
+    have hii : i' = i := Fin.ext hi'
+    subst hii
+    have hja : nbOf hu i' a = j := Fin.ext hw
+    rw [Finset.sum_eq_single a]
+    · rw [if_pos hja]
+      show H i' (nbOf hu i' a) = H i' j
+      rw [hja]
+    · intro b _ hba
+      rw [if_neg]
+      intro hb
+      exact hba (nbOf_injective hu hnd i' (hb.trans hja.symm))
+    · intro h; exact absurd (Finset.mem_univ a) h
+  · rw [if_neg he]
+    apply Finset.sum_eq_zero
+    intro a _
+    rw [if_neg]
+    intro ha
+    exact he (ha ▸ nbOf_edge hu i a)
+
+theorem edge_perm_iff (π : Equiv.Perm (Fin N)) {g g' : Graph} {k : Nat} (hu : Uniform g N k)
+    (hse : SameEdges (relabel g (permList π) (permList π.symm)) g' N) (i j : Fin N) :
+    Edge g' i.1 j.1 ↔ Edge g (π i).1 (π j).1 := by
+  have hp := isPermPair π
+  constructor
+  · intro he
+    have h1 := (edge_relabel hu hp i.2 ((hse i.1 i.2 j.1).2 he)).1
+    rwa [permList_getD π i.2, permList_getD π j.2, pOf_fin, pOf_fin] at h1
+  · intro he
+    have h1 := relabel_edge hu hp he
+    rw [permList_getD π.symm (π i).2, permList_getD π.symm (π j).2, pOf_fin, pOf_fin,
+      Equiv.symm_apply_apply, Equiv.symm_apply_apply] at h1
+    exact (hse i.1 i.2 j.1).1 h1
+
+/-- **compute_laplacian on re-ordered data**: `L' = Π L Πᵀ`, `D' = Π D` -/
+theorem computeLaplacian_perm (π : Equiv.Perm (Fin N)) {g g' : Graph} {k : Nat} (hu : Uniform g N k)
+    (hu' : Uniform g' N k) (hnd : ∀ l ∈ g, l.Nodup) (hnd' : ∀ l ∈ g', l.Nodup)
+    (hse : SameEdges (relabel g (permList π) (permList π.symm)) g' N) (heat : K → K) (δ : Nat → Nat → K) (w : K) :
+    (∀ i j, (computeLaplacian heat (fun i j : Fin N => δ (pOf π i.1) (pOf π j.1)) w (nbOf hu')).1 i j
+        = (computeLaplacian heat (fun i j : Fin N => δ i.1 j.1) w (nbOf hu)).1 (π i) (π j)) ∧
+    (∀ i, (computeLaplacian heat (fun i j : Fin N => δ (pOf π i.1) (pOf π j.1)) w (nbOf hu')).2 i
+        = (computeLaplacian heat (fun i j : Fin N => δ i.1 j.1) w (nbOf hu)).2 (π i)) := by
+  classical
+  rw [C09.computeLaplacian_eq, C09.computeLaplacian_eq]
+  set H : Fin N → Fin N → K := fun i j => heat (-(δ i.1 j.1) ^ 2 / w) with hH
+  set H' : Fin N → Fin N → K := fun i j => heat (-(δ (pOf π i.1) (pOf π j.1)) ^ 2 / w) with hH'
+  have hHH : ∀ i j, H' i j = H (π i) (π j) := fun i j => by simp only [hH, hH', pOf_fin]
+  have hA : ∀ i j, adj (nbOf hu') (fun i a => H' i (nbOf hu' i a)) i j
+      = adj (nbOf hu) (fun i a => H i (nbOf hu i a)) (π i) (π j) := by
+    intro i j
+    rw [adj_of_nodup hu' hnd' H', adj_of_nodup hu hnd H, hHH]
+    exact if_congr (edge_perm_iff π hu hse i j) rfl rfl
+  have hD : ∀ i, degrees (nbOf hu') (fun i a => H' i (nbOf hu' i a)) i
+      = degrees (nbOf hu) (fun i a => H i (nbOf hu i a)) (π i) := by
+    intro i
+    rw [C09.degrees_eq, C09.degrees_eq]
+    refine Eq.trans ?_ (Equiv.sum_comp π (fun j' => (adj (nbOf hu) (fun i a => H i (nbOf hu i a))
+      + (adj (nbOf hu) (fun i a => H i (nbOf hu i a)))ᵀ) (π i) j'))
+    apply Finset.sum_congr rfl
+    intro j _
+    simp only [Matrix.add_apply, Matrix.transpose_apply, hA]
+  refine ⟨fun i j => ?_, fun i => hD i⟩
+  show laplacianL (nbOf hu') (fun i a => H' i (nbOf hu' i a)) i j
+    = laplacianL (nbOf hu) (fun i a => H i (nbOf hu i a)) (π i) (π j)
+  have e1 := congrFun (congrFun (C09.laplacian_eq (nbOf hu') (fun i a => H' i (nbOf hu' i a))) i) j
+  have e2 := congrFun (congrFun (C09.laplacian_eq (nbOf hu) (fun i a => H i (nbOf hu i a))) (π i)) (π j)
+  simp only [Mat.toM_apply] at e1 e2
+  rw [e1, e2]
+  simp only [Matrix.sub_apply, Matrix.add_apply, Matrix.transpose_apply, Matrix.diagonal_apply, hA, hD,
+    π.injective.eq_iff]
+
+end leperm
+
+section lemain
+set_option linter.unusedSectionVars false
+open TapkeeVerif.LeCompose TapkeeVerif.Laplacian TapkeeVerif.SpectralLocal Matrix
+variable {K : Type} [Field K] [LinearOrder K] [IsStrictOrderedRing K] {N : Nat}
+
+theorem genEigSystem_perm (π : Equiv.Perm (Fin N)) {A B V : Matrix (Fin N) (Fin N) K} {lam : Fin N → K}
+    (h : GenEigSystem A B V lam) :
+    GenEigSystem (A.submatrix π π) (B.submatrix π π) (V.submatrix π id) lam := by
+  have key : ∀ M : Matrix (Fin N) (Fin N) K,
+      (V.submatrix π id)ᵀ * M.submatrix π π * V.submatrix π id = Vᵀ * M * V := by
+    intro M
+    rw [Matrix.transpose_submatrix, Matrix.submatrix_mul_equiv Vᵀ M id π π,
+      Matrix.submatrix_mul_equiv (Vᵀ * M) V id π id]
+    simp
+  exact ⟨by rw [key]; exact h.orth, by rw [key]; exact h.diag, h.sorted⟩
+
+theorem nodup_of_exact {δ : Nat → Nat → K} {g : Graph} {k : Nat}
+    (hex : ∀ u (hu : u < g.length), IsExactKnn δ (List.range N) k u g[u]) : ∀ l ∈ g, l.Nodup := by
+  intro l hl
+  obtain ⟨u, hu, rfl⟩ := List.getElem_of_mem hl
+  exact (hex u hu).2.1
+
+end lemain
 end TapkeeVerif.EquivCompose
